@@ -290,6 +290,9 @@ def cases(tier, seed):
                 for first in ("reader", "receiver"):
                     out.append({"part": "read-race", "frames": nframes, "reads": reads, "warm": warm, "first": first,
                                 "P": 1 if tier == "quick" else 2})
+    for lay in range(len(WRITE_LAYOUTS)):
+        for first in (0, 1):
+            out.append({"part": "write-race", "layout": lay, "first": first, "P": 2 if tier == "quick" else 3})
     from checks import c05
     for a in range(len(c05.FULL)):
         out.append({"part": "layouts", "first": a})
@@ -501,6 +504,69 @@ def run_read_race(case, st):
     st.sample({"read-race": case, "schedules": stats["executions"], "outcomes": len(stats["outcomes"])}, cap=8)
 
 
+# Two application threads write two variables of one producing map that share no byte of the frame.
+# (entries (index, bits)), (entry no, value) of writer A, of writer B, initial frame, expected frame
+WRITE_LAYOUTS = [
+    ([(0x2000, 4), (0x2004, 4), (0x2002, 32)], (0, 0xC), (2, 0xDEADBEEF), "5a11223344", "5cefbeadde"),
+    ([(0x2000, 4), (0x2004, 4), (0x2001, 16), (0x2003, 1)], (1, -3), (3, True), "5a112200", "da112201"),
+    ([(0x2001, 16), (0x2000, 4), (0x2004, 4)], (0, -2), (2, 7), "11225a", "feff7a"),
+    ([(0x2003, 1), (0x2000, 8), (0x2001, 16), (0x2004, 4)], (0, True), (3, -8), "00ffff01", "01ffff11"),
+]
+
+
+def run_write_race(case, st):
+    """Each writer changes exactly its own field: with fields in different bytes of the frame, both values are in the
+    frame once both threads are done, whatever the interleaving (line-level scheduling points inside canopen)."""
+    import os
+    import canopen
+    root = os.path.dirname(os.path.abspath(canopen.__file__))
+    entries, wa, wb, init, want = WRITE_LAYOUTS[case["layout"]]
+
+    def harness(s):
+        node = canopen.RemoteNode(5, od())
+        m = node.rpdo[1]
+        m.clear()
+        vs = [m.add_variable(i, 0, n) for i, n in entries]
+        m.data[:] = bytes.fromhex(init)
+
+        def writer(k, v):
+            def run():
+                vs[k].raw = v
+            return run
+        order = [("A", wa), ("B", wb)]
+        if case["first"]:
+            order.reverse()
+        ts = [s.spawn(writer(*w), n) for n, w in order]
+
+        def result():
+            exc = [repr(t.exc)[:80] for t in ts if t.exc is not None]
+            return (bytes(m.data).hex(), exc, s.deadlock)
+        return result
+
+    def on_exec(s, out):
+        data, exc, deadlock = out
+        st.evaluations += 1
+        st.traces += 1
+        st.transitions += len(s.trace)
+        if s.pre:
+            st.nontrivial_n += 1
+        rc = dict(case, schedule=[t[1] for t in s.trace])
+        if deadlock or exc:
+            st.violation("C15:write-race:exception", rc, "both writes complete", f"{exc} deadlock={deadlock}")
+        elif data != want:
+            st.violation("C15:write-race:lost-write", rc, want, data)
+        else:
+            st.outcome("write-race ok")
+
+    if "schedule" in case:
+        on_exec(*vsched.replay(harness, case, line_root=root, horizon=20000))
+        return
+    stats = vsched.explore_schedules(harness, case["P"], on_exec=on_exec, line_root=root, horizon=20000)
+    st.states += stats["executions"]
+    st.count("write_race_schedules", stats["executions"])
+    st.sample({"write-race": case, "schedules": stats["executions"]}, cap=8)
+
+
 # (node.pdo[0x1A00] / node.pdo[0x1600] are not used: their keys are swapped between rx and tx, which the suite enshrines)
 PATHS = ("map[name]", "map[position]", "map[index]", "tpdo[name]", "tpdo[index]", "pdo[name]", "pdo[index]", "tpdo[1][name]")
 
@@ -630,6 +696,8 @@ def run_case(case, st):
         return run_access_paths(case, st)
     if case["part"] == "read-race":
         return run_read_race(case, st)
+    if case["part"] == "write-race":
+        return run_write_race(case, st)
     if case["part"] == "layouts":
         return run_layouts(case, st)
     if case["part"] == "bfs":
